@@ -530,6 +530,10 @@ impl Batch {
     }
 
     pub(super) fn push(&mut self, gate: Gate, record_id: RecordId, segment: Segment) {
+        // Verification harness (feature `ipa-verif`, test builds only): note which gates have
+        // their multiplication intermediates recorded in a batch. No effect otherwise.
+        #[cfg(all(test, feature = "ipa-verif"))]
+        ipa_verif_hook::c02_note_push(&gate);
         // get value_store & create new one when necessary
         // insert segment
         self.inner
